@@ -172,6 +172,7 @@ class Prop:
     once_kinds: tuple = ()
     soft_timeout = 20.0
     hard_timeout = 90.0
+    soft_clock_cpu = False  # True: the soft budget counts CPU time of the worker, not wall-clock time
     # names of deciding monitors -> minimal number of evaluations for a 'held' verdict
     deciding: dict[str, int] = {}
     min_nontrivial = 2
@@ -208,22 +209,25 @@ class soft_alarm:
     """Per-case soft timeout: SIGALRM raises CaseTimeout in the main thread. Pure-Python
     loops (marko's) are interrupted; a single long C call is not (the hard timeout covers it)."""
 
-    def __init__(self, seconds: float):
+    def __init__(self, seconds: float, cpu: bool = False):
+        """cpu=True: the budget is CPU time of this process (ITIMER_PROF): a loaded machine does not use it up, a busy loop
+        does; a call that sleeps for ever is left to the hard (wall-clock) watchdog."""
         self.seconds = seconds
+        self.sig, self.timer = (signal.SIGPROF, signal.ITIMER_PROF) if cpu else (signal.SIGALRM, signal.ITIMER_REAL)
 
     def _handler(self, signum, frame):
         raise CaseTimeout()
 
     def __enter__(self):
         if self.seconds and self.seconds > 0:
-            self._old = signal.signal(signal.SIGALRM, self._handler)
-            signal.setitimer(signal.ITIMER_REAL, self.seconds)
+            self._old = signal.signal(self.sig, self._handler)
+            signal.setitimer(self.timer, self.seconds)
         return self
 
     def __exit__(self, *exc):
         if self.seconds and self.seconds > 0:
-            signal.setitimer(signal.ITIMER_REAL, 0)
-            signal.signal(signal.SIGALRM, self._old)
+            signal.setitimer(self.timer, 0)
+            signal.signal(self.sig, self._old)
         return False
 
 
